@@ -168,6 +168,7 @@ func (m *minimizer) run() {
 		func(c *Scenario) bool { ok := c.Consumer.ThinkMax != 0; c.Consumer.ThinkMax = 0; return ok },
 		func(c *Scenario) bool { ok := c.Consumer.Stalls != nil; c.Consumer.Stalls = nil; return ok },
 		func(c *Scenario) bool { ok := c.Trailer != 0; c.Trailer = 0; return ok },
+		func(c *Scenario) bool { ok := c.Tail != ""; c.Tail = ""; return ok },
 		func(c *Scenario) bool { ok := c.ShutdownAfter != 0; c.ShutdownAfter = 0; return ok },
 		func(c *Scenario) bool { ok := c.Failure != nil; c.Failure = nil; return ok },
 		func(c *Scenario) bool { ok := c.WriteStalls != nil; c.WriteStalls = nil; return ok },
